@@ -21,6 +21,33 @@ pub struct ECfg {
 }
 
 impl ECfg {
+    /// configuration for a main type other than u8 / i8 (wide and mixed-width code paths)
+    pub fn wide(main: IntTy) -> ECfg {
+        let opposite = match main {
+            IntTy::U16 => IntTy::I16,
+            IntTy::I16 => IntTy::U16,
+            IntTy::U32 => IntTy::I32,
+            IntTy::I32 => IntTy::U32,
+            IntTy::U64 => IntTy::I64,
+            IntTy::I64 => IntTy::U64,
+            IntTy::Usize => IntTy::I32,
+            other => other,
+        };
+        let others: Vec<Ty> = vec![Ty::Bool, Ty::Int(IntTy::U8), Ty::Int(IntTy::I8), Ty::Int(opposite)];
+        let mut lits: HashMap<Ty, Vec<Expr>> = HashMap::new();
+        let l = |vals: &[i128], t: IntTy| -> Vec<Expr> { vals.iter().map(|v| lit(*v, t)).collect() };
+        let mut main_lits = vec![1, IntTy::max(main)];
+        if main.signed() {
+            main_lits.push(IntTy::min(main));
+            main_lits.push(-1);
+        }
+        lits.insert(Ty::Int(main), l(&main_lits, main));
+        lits.insert(Ty::Int(IntTy::U8), l(&[1, 255], IntTy::U8));
+        lits.insert(Ty::Int(IntTy::I8), l(&[-1, -128], IntTy::I8));
+        lits.insert(Ty::Int(opposite), if opposite.signed() { l(&[-1, IntTy::min(opposite)], opposite) } else { l(&[1, IntTy::max(opposite)], opposite) });
+        lits.insert(Ty::Bool, vec![lit_bool(true)]);
+        ECfg { main, others, lits, with_if: true, with_match: true, with_block: true, with_call: true, with_cast: true }
+    }
     pub fn new(main: IntTy, rich: bool) -> ECfg {
         let others: Vec<Ty> = if main == IntTy::U8 {
             vec![Ty::Bool, Ty::Int(IntTy::U16), Ty::Int(IntTy::I32), Ty::Int(IntTy::U64), Ty::Int(IntTy::I8)]
@@ -30,13 +57,13 @@ impl ECfg {
         let mut lits: HashMap<Ty, Vec<Expr>> = HashMap::new();
         let l = |vals: &[i128], t: IntTy| -> Vec<Expr> { vals.iter().map(|v| lit(*v, t)).collect() };
         if main == IntTy::U8 {
-            lits.insert(Ty::Int(IntTy::U8), if rich { l(&[0, 1, 200, 255], IntTy::U8) } else { l(&[1, 200], IntTy::U8) });
+            lits.insert(Ty::Int(IntTy::U8), if rich { l(&[0, 1, 8, 200, 255], IntTy::U8) } else { l(&[1, 200], IntTy::U8) });
             lits.insert(Ty::Int(IntTy::I8), l(&[-1, -128], IntTy::I8));
             lits.insert(Ty::Int(IntTy::U16), l(&[1, 65535], IntTy::U16));
             lits.insert(Ty::Int(IntTy::I32), l(&[-1, 2147483647], IntTy::I32));
             lits.insert(Ty::Int(IntTy::U64), l(&[1, 18446744073709551615], IntTy::U64));
         } else {
-            lits.insert(Ty::Int(IntTy::I8), if rich { l(&[0, -1, 100, -128], IntTy::I8) } else { l(&[-1, 100], IntTy::I8) });
+            lits.insert(Ty::Int(IntTy::I8), if rich { l(&[0, -1, 4, 100, -128], IntTy::I8) } else { l(&[-1, 100], IntTy::I8) });
             lits.insert(Ty::Int(IntTy::U8), l(&[1, 255], IntTy::U8));
             lits.insert(Ty::Int(IntTy::I16), l(&[-1, -32768], IntTy::I16));
             lits.insert(Ty::Int(IntTy::U32), l(&[1, 4294967295], IntTy::U32));
